@@ -432,9 +432,17 @@ def eval_bath(case):
 
     T = float(case["T"])
     lam, tau = float(case["lam"]), float(case["tau"])
-    params = dict(ftype="OverdampedBrownian", reorg=lam, cortime=tau, T=T)
+    ftype = case.get("ftype", "OverdampedBrownian")
+    # every parameterised spectral-density type the library offers (the symmetry clauses need
+    # no reference function); energy parameters in 1/cm
+    params = {"OverdampedBrownian": dict(ftype="OverdampedBrownian", reorg=lam, cortime=tau, T=T),
+              "UnderdampedBrownian": dict(ftype="UnderdampedBrownian", reorg=lam, freq=150.0,
+                                          gamma=30.0, T=T),
+              "Underdamped": dict(ftype="Underdamped", reorg=lam, freq=150.0, gamma=30.0, T=T),
+              "B777": dict(ftype="B777", reorg=lam, alternative_form=True, T=T),
+              "CP29": dict(ftype="CP29", reorg=lam, T=T)}[ftype]
     kind, a1, a2 = case["axis"]
-    origin = case["origin"]
+    origin = case["origin"] if ftype == "OverdampedBrownian" else "analytic-" + ftype
     if kind == "t":
         ax = qr.TimeAxis(0.0, int(a1), float(a2))
     else:
@@ -444,9 +452,10 @@ def eval_bath(case):
         start = -(N // 2) * step if kind == "w" else -(N // 2) * step + 0.37 * step
         with qr.energy_units("int"):
             ax = qr.FrequencyAxis(start, N, step)
-    if origin == "analytic":
-        with qr.energy_units("1/cm"):
-            sd = SpectralDensity(ax, params)
+    if origin.startswith("analytic"):
+        with isolation.quiet():
+            with qr.energy_units("1/cm"):
+                sd = SpectralDensity(ax, params)
     else:
         params["matsubara"] = GR.matsubara_terms_for_grid(T, float(a2))
         with qr.energy_units("1/cm"):
@@ -468,6 +477,9 @@ def eval_bath(case):
     # the axis points are mirror images only up to the rounding of the axis itself
     # (start + i*step accumulates ~1e-13): allow max|J'| * |w_i + w_k|, max|J'| = 2 lam tau
     lip = 2.0 * lam * GR.CM2INT * tau
+    if ftype != "OverdampedBrownian":
+        # no closed bound at hand: twice the largest slope seen on the grid
+        lip = 2.0 * float(numpy.max(numpy.abs(numpy.gradient(Jw, w))))
     asym = numpy.abs(w[ii] + w[kk])
     e = float(numpy.max(numpy.abs(Jw[ii] + Jw[kk]) - 2.0 * lip * asym))
     worst("sd.odd/scale[%s]" % origin, max(e, 0.0) / jscale)
@@ -476,7 +488,7 @@ def eval_bath(case):
                      "max |J(w)+J(-w)| = %g (max |J| %g)"
                      % (float(numpy.max(numpy.abs(Jw[ii] + Jw[kk]))), jscale), None))
     # FT correlation function derived from the spectral density
-    ft = sd.get_FTCorrelationFunction(temperature=T) if origin != "analytic" \
+    ft = sd.get_FTCorrelationFunction(temperature=T) if not origin.startswith("analytic") \
         else sd.get_FTCorrelationFunction()
     Cw = numpy.real(numpy.array(ft.data))
     sel = w[ii] > 1.0e-7           # w > 0, and not the L'Hospital point w = 0
@@ -505,7 +517,7 @@ def eval_bath(case):
     try:
         qr_ = isolation.qr()
         with qr_.energy_units("1/cm"):
-            ftc = sd.get_FTCorrelationFunction(temperature=T) if origin != "analytic" \
+            ftc = sd.get_FTCorrelationFunction(temperature=T) if not origin.startswith("analytic") \
                 else sd.get_FTCorrelationFunction()
         with qr_.energy_units("int"):
             Cc = numpy.real(numpy.array(ftc.data))
@@ -568,8 +580,10 @@ def replay(case):
 # ---------------------------------------------------------------------------
 def system_cases(tier):
     if tier == "quick":
+        # "full": a 3-site chain with equidistant energies has a persymmetric eigenvector
+        # matrix, for which rows and columns of the transformation cannot be told apart
         dom = {"section": ["system"], "route": ["ham_sbi", "sd", "aggregate"], "n": [2, 3],
-               "Jpat": ["chain"], "bathpat": ["same", "graded"],
+               "Jpat": ["chain", "full"], "bathpat": ["same", "graded"],
                "J": [0.0, 30.0, 100.0, -80.0], "gap": [0.0, 100.0, 300.0],
                "lam": [10.0, 40.0], "tau": [50.0, 100.0], "T": [300.0, 77.0],
                "axis": [[1500, 1.0], [3000, 0.5]]}
@@ -590,6 +604,8 @@ def system_cases(tier):
             return False                       # uncoupled: one representative per size
         if tier == "quick" and c["route"] != "ham_sbi" and c["n"] == 3:
             return False                       # quick: 3 sites on the plain route only
+        if tier == "quick" and c["Jpat"] == "full" and (c["axis"][0] != 1500 or c["tau"] != 50.0):
+            return False                       # quick: the general coupling pattern on one grid
         return admissible(c)
     return product(dom, ok)
 
@@ -606,7 +622,14 @@ def bath_cases(tier):
                "axis": [["t", 1000, 1.0], ["t", 2000, 0.5], ["t", 501, 2.0],
                         ["w", 201, 0.002], ["w", 200, 0.002], ["w", 1001, 0.0005],
                         ["w-off", 200, 0.002]]}
-    return product(dom, lambda c: not (c["origin"] == "corfce" and c["axis"][0] != "t"))
+    cs = product(dom, lambda c: not (c["origin"] == "corfce" and c["axis"][0] != "t"))
+    # the other parameterised types: symmetry clauses only, one reorganisation energy / width
+    for ft in ("UnderdampedBrownian", "Underdamped", "B777", "CP29"):
+        for T in dom["T"]:
+            for ax in dom["axis"]:
+                cs.append({"section": "bath", "origin": "analytic", "ftype": ft, "lam": 40.0,
+                           "tau": 100.0, "T": T, "axis": ax})
+    return cs
 
 
 def cases(tier):
